@@ -78,9 +78,7 @@ theorem readNumbers_err {fuel : Nat} {body : Bytes} {e : PyErr} (hf : body.lengt
       split at h
       · rename_i e' he
         cases h
-        rcases readNumber_err he with ⟨_, h2⟩ | ⟨h1, _⟩
-        · exact h2
-        · subst h1; simp at hne
+        exact readNumber_err he
       · rename_i v hv
         obtain ⟨n, ll⟩ := v
         simp only at h
